@@ -504,14 +504,7 @@ func (e *Engine) mapDelete(s *State, m MapRef, key Value) {
 		}
 		w.Entries[i].Live = And(w.Entries[i].Live, Not(conds[i]))
 	}
-	// compact definitely-dead entries
-	out := w.Entries[:0]
-	for _, en := range w.Entries {
-		if !en.Live.IsFalse() {
-			out = append(out, en)
-		}
-	}
-	w.Entries = out
+	// dead entries are kept (Live == false): range iterators hold entry indices
 }
 
 func (e *Engine) mapLen(s *State, m MapRef) *Term {
